@@ -218,16 +218,30 @@ class Inliner:
         for i, s in enumerate(stmts):
             if s.get('k') == 'return' and s.get('e') is None and i == len(stmts) - 1:
                 return out
-            if s.get('k') == 'if' and s.get('else') is None and self._is_bare_return(s.get('then')):
+            if s.get('k') == 'if' and s.get('else') is None and self._ends_with_return(s.get('then')) is not None:
+                # `if (c) { S; return; } REST`  ->  `if (c) { S } else { REST }`
+                head = self._ends_with_return(s.get('then'))
                 rest = self._else_chain(stmts[i + 1:])
                 if rest is None:
                     return None
-                out.append(dict(s, then={'k': 'compound', 'body': [], 'l': s.get('l')}, **{'else': {'k': 'compound', 'body': rest, 'l': s.get('l')}}))
+                out.append(dict(s, then={'k': 'compound', 'body': head, 'l': s.get('l')}, **{'else': {'k': 'compound', 'body': rest, 'l': s.get('l')}}))
                 return out
             if self.returns(s):
                 return None
             out.append(s)
         return out
+
+    def _ends_with_return(self, s):
+        """the statements before a final bare `return;` of a block that contains no other return, else None"""
+        if s is None:
+            return None
+        stmts = list(s.get('body', [])) if s.get('k') == 'compound' else [s]
+        if not stmts or not (stmts[-1].get('k') == 'return' and stmts[-1].get('e') is None):
+            return None
+        head = stmts[:-1]
+        if any(self.returns(h) for h in head):
+            return None
+        return head
 
     @staticmethod
     def _is_bare_return(s):
@@ -339,7 +353,10 @@ class Inliner:
             out = []
             body = s.get('body', [])
             for i, c in enumerate(body):
-                out += self._list(c, f, tail and i == len(body) - 1, names)
+                # in tail position: the last statement of a tail block, or a statement directly followed by a bare `return;`
+                nxt = body[i + 1] if i + 1 < len(body) else None
+                before_return = isinstance(nxt, dict) and nxt.get('k') == 'return' and nxt.get('e') is None
+                out += self._list(c, f, (tail and i == len(body) - 1) or before_return, names)
             return dict(s, body=out)
         if k == 'if':
             new = dict(s)
